@@ -61,6 +61,10 @@ def py(v):
 
 
 def np_col(kind, values, faulty=False):
+    if kind == "u":
+        # fixed-width numpy string column (Table(..., cast_strings=False) keeps it)
+        a = np.array([str(v) for v in values], dtype="U%d" % max([1] + [len(str(v)) for v in values]))
+        return as_faulty(a) if faulty else a
     if kind == "f":
         a = np.array(values, dtype=float)
     elif kind == "i":
@@ -125,14 +129,18 @@ class TWorld:
             data[name] = np_col(kind, values, faulty)
             kinds[name] = kind
         for k, v in spec.get("scalars", ()):
-            data[k] = v
-        t = self.xd.Table(data, col_names=cols, index=spec["index"])
+            data[k] = entry_value(v)
+        if spec.get("fixed_width"):
+            t = self.xd.Table(data, col_names=cols, index=spec["index"], cast_strings=False)
+        else:
+            t = self.xd.Table(data, col_names=cols, index=spec["index"])
         if faulty:
             # the checked constructor copies string columns; keep the fault-injecting storage
             for name in cols:
                 if not isinstance(t._data[name], FaultyArray):
                     t._data[name] = as_faulty(t._data[name])
-        m = MTable(cols, {c[0]: list(c[2]) for c in spec["cols"]}, spec["index"], dict(spec.get("scalars", ())))
+        m = MTable(cols, {c[0]: list(c[2]) for c in spec["cols"]}, spec["index"], {k: entry_value(v) for k, v in spec.get("scalars", ())})
+        m.width = {c[0]: max([1] + [len(str(v)) for v in c[2]]) for c in spec["cols"] if c[1] == "u"}
         self.real.append(t)
         self.model.append(m)
         self.kinds.append(kinds)
@@ -211,7 +219,7 @@ class TWorld:
         if set(scal) != set(m.scalars):
             raise TViolation(prop + ".scalars", "%s: table #%d carries scalar entries %s, expected %s" % (where, tid, sorted(scal), sorted(m.scalars)))
         for k, v in m.scalars.items():
-            if not cell_same(py(scal[k]), v):
+            if not entry_same(py(scal[k]), v):
                 raise TViolation(prop + ".scalar_value", "%s: table #%d scalar %r is %r, expected %r" % (where, tid, k, scal[k], v))
         t = self.real[tid]
         if t._index != m.index:
@@ -220,7 +228,8 @@ class TWorld:
     def digest_table(self, tid):
         cols, data, scal = self.raw(tid)
         return (tuple(cols), tuple((c, tuple(repr(x) for x in (data[c] or ()))) for c in cols),
-                tuple(sorted((k, repr(v)) for k, v in scal.items())), len(self.real[tid]) if cols else 0)
+                tuple(sorted((k, repr(v) if not isinstance(v, np.ndarray) else repr(v.tolist())) for k, v in scal.items())),
+                len(self.real[tid]) if cols else 0)
 
     def resync_model(self, tid):
         """adopt the real cell values (after an aliasing mutation elsewhere or a torn write); structure is not adopted"""
@@ -229,6 +238,29 @@ class TWorld:
         for c in m.cols:
             if c in data and data[c] is not None and len(data[c]) == len(m.data[c]):
                 m.data[c] = list(data[c])
+
+
+def entry_value(v):
+    """non-column entries of a table: ('tuple', [..]) / ('list', [..]) / ('array', [..]) / ('none',) markers or plain scalars"""
+    if isinstance(v, (tuple, list)) and v and v[0] in ("tuple", "list", "array", "none", "dict"):
+        if v[0] == "tuple":
+            return tuple(v[1])
+        if v[0] == "list":
+            return list(v[1])
+        if v[0] == "array":
+            return np.array(v[1], dtype=float)
+        if v[0] == "dict":
+            return {"k": v[1]}
+        return None
+    return v
+
+
+def entry_same(a, b):
+    if isinstance(a, np.ndarray) or isinstance(b, np.ndarray):
+        return isinstance(a, np.ndarray) and isinstance(b, np.ndarray) and a.shape == b.shape and bool(np.all(a == b))
+    if type(a) is not type(b):
+        return False
+    return a == b
 
 
 def cell_same(a, b):
